@@ -52,8 +52,12 @@ def gen_form_doc(rng, iframes=True, nested_forms=True, max_nodes=30, lang=True, 
         if k == 'textarea':
             if rng.random() < .5:
                 e.attrs['placeholder'] = rng.choice(['', 'ph'])
-            if rng.random() < .5:
+            r = rng.random()
+            if r < .45:
                 e.kids.append(T('text', rng.choice(['t', ' ', 'אב', 'x y'])))
+            elif r < .6:
+                # markup inside a textarea: text for lxml/html5lib, child elements for html.parser and API-built trees
+                e.kids.append(E(rng.choice(['b', 'span']), {}, [T('text', rng.choice(['typed', 'x']))] if rng.random() < .8 else []))
         if k == 'progress' and rng.random() < .5:
             e.attrs['value'] = '1'
         if k in ('a', 'area', 'link') and rng.random() < .6:
